@@ -231,7 +231,9 @@ func c18r2(c *Ctx) {
 				construct := "flag := " + e.Term(call.Call.Args[1])
 				good := false
 				for _, f := range fs {
-					if f.Lin && len(f.LE.c) == 2 && f.LE.k == 0 && f.LE.c[epoch] == 1 {
+					// a direct comparison of the two epochs: a difference computed first (`int32(activation - epoch) <= 0`) is the same
+					// inequality over ideal integers only — in 32-bit machine arithmetic it wraps for epochs 2^31 apart
+					if f.Lin && !f.arith && len(f.LE.c) == 2 && f.LE.k == 0 && f.LE.c[epoch] == 1 {
 						for a, k := range f.LE.c {
 							if k == -1 && strings.HasPrefix(a, "*"+recv+".") {
 								good = true
